@@ -60,7 +60,11 @@ func init() {
 	set("C07", func(c *propCfg) { c.StmtThorough = []string{"spine/entity_local.go"} })
 	set("C09", func(c *propCfg) { c.StmtThorough = []string{"spine/binding_manager.go"} })
 	set("C12", func(c *propCfg) { c.StmtThorough = []string{"spine/feature_local.go"} })
-	set("C13", func(c *propCfg) { c.StmtThorough = []string{"spine/send.go"}; c.StmtQuick = []string{"spine/send.go"} })
+	set("C13", func(c *propCfg) {
+		c.StmtThorough = []string{"spine/send.go"}
+		c.StmtQuick = []string{"spine/send.go"}
+		c.QuickRuns = 1600
+	})
 	set("C16", func(c *propCfg) {
 		c.StmtThorough = []string{"spine/heartbeat_manager.go"}
 		c.StmtQuick = []string{"spine/heartbeat_manager.go"}
